@@ -62,6 +62,9 @@ Proof.
   unfold send_rs, rs_marshal, lla_option, raw_option. destruct c as [hm hip hlla rm rip mtu]. cbn [host_mac host_lla] in *.
   rewrite (proj1 H1). cbn [Nat.eqb].
   explode_ok hm H1. explode_ok hlla H2. explode j Hj.
+  cbn -[icmp6_send_packet]. posnat. cbn -[icmp6_send_packet]. unfold icmp6_send_packet. cbn [a_ip snd ip6_all_routers_addr].
+  match goal with |- context [nd_message ?p] => replace (nd_message p) with true by reflexivity end.
+  rewrite orb_true_r.
   eexists. split; [cbn; reflexivity|]. abs_cks.
   unfold wf_rs. run. eqbs. icmp6_cks.
 Qed.
